@@ -234,6 +234,16 @@ type (
 	StreamsOption func(*streamsOptions)
 )
 
+// closeOnce signals the listener's event goroutines to stop; it is only called from the manager goroutine.
+func (l listener) closeOnce() {
+	select {
+	case <-l.close:
+		// already closed: the listener was cancelled while events were still being delivered
+	default:
+		close(l.close)
+	}
+}
+
 func New(pcapDir, indexDir, snapshotDir, stateDir, converterDir, watchDir string) (*Manager, error) {
 	ctx := context.Background()
 	mgr := Manager{
@@ -512,7 +522,7 @@ func (mgr *Manager) Close() {
 				delete(mgr.listeners, ch)
 				close(ch)
 			}
-			close(l.close)
+			l.closeOnce()
 		}
 		for _, e := range mgr.pcapOverIPEndpoints {
 			e.cancel()
@@ -2786,7 +2796,7 @@ func (mgr *Manager) Listen() (chan Event, func()) {
 				delete(mgr.listeners, ch)
 				close(ch)
 			}
-			close(l.close)
+			l.closeOnce()
 		}
 		<-c
 	}
